@@ -12,10 +12,14 @@ ENTRIES = ['c09_layout', 'c09_pair', 'c09_triple']
 def modules(ctx):
     m = V.Module(ctx, 'c09', TUS, 'c09.cc', ENTRIES, native_tus=V.ALL_CORE + V.ALL_DW, native_libs=V.ALL_LIBS,
                  empties=('_ZN10value_type13register_type',))
-    return {'c09': m}
+    mc = V.Module(ctx, 'c16cmp', ['coverage.cc', 'value-aset.cc', 'value.cc'], 'c16cmp.cc',
+                  ['c16_cmp_111', 'c16_cmp_222', 'c16_cmp_122', 'c16_cmp_012'], native_tus=V.ALL_CORE + V.ALL_DW, native_libs=V.ALL_LIBS,
+                  empties=('_ZN10value_type13register_type',), traps=('_M_realloc_insert',))
+    return {'c09': m, 'c16cmp': mc}
 
 def run(ctx):
-    m = modules(ctx)['c09']
+    mods = modules(ctx)
+    m = mods['c09']
     ctx.bounds.update(values='fully symbolic 64-bit payload x signedness', domains='symbolic index into a pool of 16 domain objects + nullptr',
                       layout='address order of the domain objects = the native build\'s (read from the native harness at check time)')
     ctx.assumptions += ['ostream is a null sink (show() is not the subject)', 'only constants are compared here; strings, sequences, '
@@ -37,6 +41,11 @@ def run(ctx):
         if ctx.only and e not in ctx.only:
             continue
         jobs.append(lambda e=e: V.run_entry(ctx, m, e, 20, timeout=900, cdefs=cdefs, bounds='all constants of the pool', tv_seeds=2))
+    # address sets: value_aset::cmp is a total order consistent with set equality (full 64-bit values)
+    for e in ('c16_cmp_111', 'c16_cmp_222', 'c16_cmp_122', 'c16_cmp_012'):
+        if ctx.only and e not in ctx.only:
+            continue
+        jobs.append(lambda e=e: V.run_entry(ctx, mods['c16cmp'], e, 8, timeout=600, bounds='three address sets, run counts per name, starts/ends fully symbolic 64-bit'))
     V.run_parallel(jobs)
 
 def replay(ctx, js):
